@@ -14,7 +14,7 @@ for sid in ids:
     cmd = [sys.executable, os.path.join(HERE, "tools", "run_seed.py"), sd, prop] + (["--only", ONLY[sid]] if sid in ONLY else [])
     p = subprocess.run(cmd, capture_output=True, text=True, env=dict(os.environ, VERIF_NO_CACHE="1"))
     out = p.stdout
-    vio = re.findall(r"violated obligation (\S+?):", out)
+    vio = re.findall(r"violated obligation (\S+?):", out) or [os.path.basename(x)[:-5] for x in re.findall(r"replay=(\S+\.json)", out)]
     m = re.search(r"exit (\d+)\s*$", out.strip())
     code = int(m.group(1)) if m else None
     lines = [l for l in out.splitlines() if l.startswith("VIOLATION")]
